@@ -164,7 +164,13 @@ def render_func(prog, fi):
         for ln in render_stmt(prog, f["mod"], k, st):
             lines.append("    " + ln)
     parts = [repr(f["name"]), str(f.get("ver", 0))] + [p for p, _ in f["params"]] + [f"r{k}" for k in range(len(f["body"]))]
-    lines.append(f"    return ({', '.join(parts)},)")
+    tup = f"({', '.join(parts)},)"
+    if f.get("ret") == "text":
+        lines.append(f"    return repr({tup})")
+    elif f.get("ret") == "bytes":
+        lines.append(f"    return repr({tup}).encode('utf-8')")
+    else:
+        lines.append(f"    return {tup}")
     return lines
 
 
@@ -367,6 +373,10 @@ class Interp(object):
         params = {p: v for (p, _), v in zip(f["params"], vals)}
         locs = self.run_body(f["body"], params)
         res = (f["name"], f.get("ver", 0)) + tuple(vals) + tuple(locs)
+        if f.get("ret") == "text":
+            res = repr(res)
+        elif f.get("ret") == "bytes":
+            res = repr(res).encode("utf-8")
         if is_data(f):
             self.kept[f["data"]] = res
             self.kept_order.append(f["data"])
